@@ -210,6 +210,27 @@ def _check_proto(run, world, folder, mod, c):
            len(final_else) == 1 and isinstance(final_else[0], ast.Raise),
            "an unknown state must raise", where(mod, fn))
 
+    # ---- R-FSM-NEXT ---------------------------------------------------------
+    run.rule("R-FSM-NEXT", "per state, the set of next states over all "
+             "paths (exceptions included) is the protocol's: a frame is "
+             "consumed to its end, whatever it contains")
+    want_next = FSM_NEXT.get(c.name)
+    if want_next is None:
+        raise AnalysisError("no transition table transcribed for %s" % P)
+    for (state, body, node) in branches:
+        got = _next_states(body, arg)
+        if got is None:
+            raise AnalysisError("R-FSM-NEXT: state %s of %s is not loop-free"
+                                % (state, P))
+        run.ob("R-FSM-NEXT", "%s#%s" % (P, state),
+               got == want_next.get(state),
+               "from %s the receiver can go to %s; the framing wants %s "
+               "(leaving a frame early makes the rest of it be scanned for "
+               "a start byte)" % (state, sorted(got), sorted(
+                   want_next.get(state, []))), where(mod, node),
+               sample={"rule": "R-FSM-NEXT", "state": state,
+                       "next": sorted(got)})
+
     # ---- buffer size ----------------------------------------------------------
     size = None
     for s in ast.walk(rfn):
@@ -254,6 +275,14 @@ def _check_proto(run, world, folder, mod, c):
                         for y in x.body):
                     exp_iv = iv
                     len_guard = x
+    if exp_iv is None:
+        # the same, independent of how the test is written: the values of
+        # the byte for which some path stores it as the expected length
+        for (state, body, node) in branches:
+            iv = _accept_interval(body, arg, folder, c)
+            if iv is not None:
+                exp_iv = iv
+                len_guard = node
     n_sites = 0
     for (state, body, node) in branches:
         for x in _walk_stmts(body):
@@ -298,19 +327,28 @@ def _check_proto(run, world, folder, mod, c):
         # structural premises of the counter invariant
         ls = _loop_state(branches)
         body = [b for (s, b, n) in branches if s == ls][0]
-        inc = [unparse(s) for s in body]
+        sem = _counter_semantics(body, arg, folder, c)
+        if sem is None:
+            inc = [unparse(s) for s in body]
+            sem = "self._rx_received_len += 1" in inc and any(
+                isinstance(s, ast.If) and unparse(s.test) ==
+                "self._rx_received_len == self._rx_expected_len"
+                for s in body)
         run.ob("R-BOUND", P + "#counter-invariant",
-               "self._rx_received_len += 1" in inc and any(
-                   isinstance(s, ast.If) and unparse(s.test) ==
-                   "self._rx_received_len == self._rx_expected_len"
-                   for s in body) and _single_def(
-                       world, c, "_rx_expected_len", fn),
+               sem and _single_def(world, c, "_rx_expected_len", fn),
                "the payload counter must be incremented by one per byte and "
                "compared for equality with the accepted length, which is "
                "assigned only under the length guard", where(mod, fn))
-        run.ob("R-BOUND", P + "#length-guard-else-resets",
-               len_guard is not None and any(unparse(s) == "self.reset()"
-                                             for s in len_guard.orelse),
+        lstate = [b_ for (s_, b_, n_) in branches if any(
+            isinstance(x, ast.Assign) and unparse(x) ==
+            "self._rx_expected_len = %s" % arg for x in _walk_stmts(b_))]
+        resets = None
+        if lstate:
+            resets = _refused_length_resets(lstate[0], arg)
+        if resets is None:
+            resets = isinstance(len_guard, ast.If) and any(
+                unparse(s) == "self.reset()" for s in len_guard.orelse)
+        run.ob("R-BOUND", P + "#length-guard-else-resets", resets,
                "a length that cannot fit must reset the receiver",
                where(mod, len_guard or fn))
 
@@ -512,6 +550,189 @@ def _walk_stmts(stmts):
         for h in getattr(s, "handlers", []) or []:
             for x in _walk_stmts(h.body):
                 yield x
+
+
+FSM_NEXT = {
+    # next-state sets per state, transcribed from the framing of the two
+    # serial protocols ('reset' = back to the first state through reset(),
+    # 'stay' = state unchanged); a frame is always consumed to its end
+    "LubaProtocol": {
+        "WAIT_START": {"WAIT_COMMAND", "stay"},
+        "WAIT_COMMAND": {"WAIT_LENGTH"},
+        "WAIT_LENGTH": {"LOOP_READ", "reset"},
+        "LOOP_READ": {"WAIT_CHECKSUM", "stay"},
+        "WAIT_CHECKSUM": {"reset"}},
+    "SCIRS232Protocol": {
+        "WAIT_STATUS": {"WAIT_DATA_HI"},
+        "WAIT_DATA_HI": {"WAIT_DATA_MI"},
+        "WAIT_DATA_MI": {"WAIT_DATA_LO"},
+        "WAIT_DATA_LO": {"WAIT_CHECKSUM"},
+        "WAIT_CHECKSUM": {"reset"}},
+}
+
+
+def _next_states(body, arg):
+    """{next state | 'reset' | 'stay'} over all paths of a state's branch
+    (exceptions of try bodies included)."""
+    from .. import paths
+    f2 = ast.FunctionDef(name="state", args=ast.arguments(
+        posonlyargs=[], args=[ast.arg("self"), ast.arg(arg)], kwonlyargs=[],
+        kw_defaults=[], defaults=[]), body=list(body), decorator_list=[],
+        returns=None, type_comment=None, type_params=[])
+    ast.fix_missing_locations(f2)
+    try:
+        ps = paths.summaries(f2, try_prefixes=True, max_paths=20000)
+    except paths.Unsupported:
+        return None
+    out = set()
+    for p_ in ps:
+        if p_.kind == "raise":
+            continue
+        nxt = "stay"
+        for e_ in p_.effects:
+            if e_[0] == "expr" and unparse(e_[1]) == "self.reset()":
+                nxt = "reset"
+            elif len(e_) == 2 and e_[0] in ("self._rx_state",
+                                            "self.rx_state"):
+                nxt = unparse(e_[1]).split(".")[-1]
+        out.add(nxt)
+    return out
+
+
+def _state_paths(body, arg):
+    from .. import paths
+    f2 = ast.FunctionDef(name="state", args=ast.arguments(
+        posonlyargs=[], args=[ast.arg("self"), ast.arg(arg)], kwonlyargs=[],
+        kw_defaults=[], defaults=[]), body=list(body), decorator_list=[],
+        returns=None, type_comment=None, type_params=[])
+    ast.fix_missing_locations(f2)
+    try:
+        return paths.summaries(f2)
+    except paths.Unsupported:
+        return None
+
+
+def _counter_semantics(body, arg, folder, c):
+    """Loop state: every path adds one to the payload counter, and the state
+    is left exactly when the new count equals the expected length."""
+    from .. import pred
+    ps = _state_paths(body, arg)
+    if ps is None:
+        return None
+
+    def lin(e):
+        t = unparse(e)
+        if t == "self._rx_received_len":
+            return pred.Lin.sym("r")
+        if t == "self._rx_expected_len":
+            return pred.Lin.sym("e")
+        if isinstance(e, ast.Constant) and type(e.value) is int:
+            return pred.Lin.const(e.value)
+        if isinstance(e, ast.BinOp) and isinstance(e.op, (ast.Add, ast.Sub)):
+            a, b = lin(e.left), lin(e.right)
+            if a is None or b is None:
+                return None
+            return a + b if isinstance(e.op, ast.Add) else a - b
+        return None
+    P = pred.Parser(lin)
+    adv = frozenset()
+    stay = frozenset()
+    for p_ in ps:
+        new = p_.env.get("self._rx_received_len")
+        if new is None or lin(new) != pred.Lin.sym("r") + 1:
+            return False
+        trees = []
+        for (t, b) in p_.conds:
+            try:
+                tr = P.tree(t)
+            except pred.Unrecognised:
+                continue
+            trees.append(tr if b else ("not", tr))
+        d = pred.dnf(("and", trees))
+        d = frozenset(frozenset(a for a in cj if a[0] == "le") for cj in d)
+        leaves = any(e_[0] in ("self._rx_state", "self.rx_state")
+                     for e_ in p_.effects if len(e_) == 2)
+        if leaves:
+            adv = pred.union(adv, d)
+        else:
+            stay = pred.union(stay, d)
+    eq = pred.dnf(("and", [("atom", ("le", "r", "e", 1)),
+                           ("atom", ("le", "e", "r", -1))]))
+    return pred.equivalent(adv, eq)[0] and not any(
+        pred.sat(cj | next(iter(eq))) for cj in stay)
+
+
+def _refused_length_resets(body, arg):
+    """Length state: every path that does not accept the byte as the
+    expected length calls self.reset()."""
+    ps = _state_paths(body, arg)
+    if ps is None:
+        return None
+    for p_ in ps:
+        stored = any(e_[0] == "self._rx_expected_len" for e_ in p_.effects
+                     if len(e_) == 2)
+        reset = any(e_[0] == "expr" and unparse(e_[1]) == "self.reset()"
+                    for e_ in p_.effects)
+        if not stored and not reset and p_.kind != "raise":
+            return False
+    return True
+
+
+def _accept_interval(body, arg, folder, c):
+    """Interval hull of the values of `arg` for which a path through `body`
+    executes `self._rx_expected_len = arg` (path summaries + bounds)."""
+    from .. import paths, pred
+    if not any(isinstance(x, ast.Assign) and unparse(x) ==
+               "self._rx_expected_len = %s" % arg
+               for x in _walk_stmts(body)):
+        return None
+    f2 = ast.FunctionDef(name="state", args=ast.arguments(
+        posonlyargs=[], args=[ast.arg("self"), ast.arg(arg)], kwonlyargs=[],
+        kw_defaults=[], defaults=[]), body=list(body), decorator_list=[],
+        returns=None, type_comment=None, type_params=[])
+    ast.fix_missing_locations(f2)
+    try:
+        ps = paths.summaries(f2)
+    except paths.Unsupported:
+        return None
+
+    def lin(e):
+        if isinstance(e, ast.Name) and e.id == arg:
+            return pred.Lin.sym("x")
+        iv = iv_eval(e, {}, folder, c)
+        if iv is not None and iv.lo == iv.hi:
+            return pred.Lin.const(iv.lo)
+        return None
+    P = pred.Parser(lin)
+    lo = hi = None
+    found = False
+    for p_ in ps:
+        if not any(e_[0] == "self._rx_expected_len" and unparse(
+                e_[1]) == arg for e_ in p_.effects if len(e_) == 2):
+            continue
+        trees = []
+        for (t, b) in p_.conds:
+            try:
+                tr = P.tree(t)
+            except pred.Unrecognised:
+                continue
+            trees.append(tr if b else ("not", tr))
+        for conj in pred.dnf(("and", trees)):
+            clo = chi = None
+            for a in conj:
+                if a[0] != "le":
+                    continue
+                _, x, y, k = a
+                if x == "x" and y == "0":        # x + k <= 0
+                    chi = -k if chi is None else min(chi, -k)
+                elif x == "0" and y == "x":      # -x + k <= 0
+                    clo = k if clo is None else max(clo, k)
+            if clo is None or chi is None:
+                return None
+            found = True
+            lo = clo if lo is None else min(lo, clo)
+            hi = chi if hi is None else max(hi, chi)
+    return Iv(lo, hi) if found else None
 
 
 def _guard_interval(test, arg, folder, c):
